@@ -281,8 +281,7 @@ def run(check):
             ts = [None] if h.type is None else (
               [unparse(e) for e in h.type.elts] if isinstance(h.type, ast.Tuple) else [unparse(h.type)])
             if any(t is None or t in ('Exception', 'BaseException') for t in ts):
-              logs = any(isinstance(x, ast.Call) and (dotted(x.func) or '').startswith('log.')
-                         for s in h.body for x in ast.walk(s))
+              logs = _always_logs(h.body)     # on every path through the handler, not only under a rate limit / a flag
               reraises = any(isinstance(x, ast.Raise) for s in h.body for x in ast.walk(s))
               if logs and not reraises:
                 ok = True
@@ -303,6 +302,7 @@ def run(check):
                     'every cache access of store/drain holds the lock and no per-metric dict is used across critical sections')
   rule_lockset(check, cmx, r_il)
   rule_escape(check, cmx, r_il)
+  rule_counters_live(check, cx, check.rule('R-C03-counters-live', 3, 'instrumentation.increment / max / append update the stats table on every path (no early return)'))
 
 
 def _contains(stmt, node):
@@ -343,3 +343,45 @@ def _chase(g, expr, use_node, drain_node, dvar, depth):
       return verdict, why
     out.append(why)
   return 'ok', '`%s` <- %s' % (unparse(expr), '; '.join(out) or 'drain')
+
+
+def _always_logs(stmts):
+  """every path through the statement list makes a log.<x>() call (the report of what escaped the pass must not depend
+  on a condition: a suppressed report is the only account of a batch lost at the exists() gate)."""
+  for s in stmts:
+    if isinstance(s, ast.Expr) and isinstance(s.value, ast.Call) and (dotted(s.value.func) or '').startswith('log.'):
+      return True
+    if isinstance(s, ast.If) and s.orelse and _always_logs(s.body) and _always_logs(s.orelse):
+      return True
+    if isinstance(s, ast.With) and _always_logs(s.body):
+      return True
+    if isinstance(s, ast.Try) and (_always_logs(s.finalbody) or (_always_logs(s.body) and not s.handlers)):
+      return True
+    if isinstance(s, (ast.Return, ast.Raise, ast.Break, ast.Continue)):
+      return False
+  return False
+
+
+def rule_counters_live(check, cx, rule):
+  """carbon.instrumentation.increment / max / append reach their table on every path: a counter call that can return
+  early (instrumentation 'disabled', a sampling fast path) makes the writer's and the relay's only account of a dropped
+  batch disappear."""
+  for name in ('increment', 'max', 'append'):
+    fn = cx.fn('carbon.instrumentation', name)
+    if not rule.require(fn is not None, 'carbon.instrumentation.%s not found' % name):
+      continue
+    g = cx.cfg(fn)
+    touches = [n for n in g.nodes if n.ast is not None and any(
+      isinstance(x, ast.Name) and x.id == 'stats'
+      for x in (walk_no_nested(n.ast) if not isinstance(n.ast, (ast.If, ast.While, ast.For, ast.Try, ast.With)) else
+                ast.walk(getattr(n.ast, 'test', None) or getattr(n.ast, 'iter', None) or ast.Pass())))]
+    if not rule.require(bool(touches), 'no access to the `stats` table found in instrumentation.%s' % name):
+      continue
+    if g.exit in g.reach([g.entry], removed_nodes=touches, normal_only=True):
+      p = g.path([g.entry], g.exit, removed_nodes=touches, normal_only=True)
+      last = [x for x in (p or []) if x.ast is not None]
+      rule.violate('counter call can return without counting', fn, last[-1].ast if last else fn.node,
+                   'instrumentation.%s() can return without touching the `stats` table: events counted through it '
+                   '(droppedCreates, errors, fullQueueDrops ...) are lost on that path' % name, path=g.describe_path(p))
+    else:
+      rule.ok('every path reaches the stats table', fn.loc(fn.node), name)
